@@ -4,48 +4,9 @@ constants regenerated from the source), radix conversions, belt-32block, the thr
 Strings over Z_mod are `List Nat` (u16 values).
 -/
 import Bee2V.C01.Model.Wbl
+import Bee2V.C01.Model.FmtB
 namespace Bee2V.C01
 open Bee2V.Gen.C01
-
-def M128 : Nat := 2 ^ 128
-
-/-- bit length: `B_PER_W - wordCLZ((word)mod)` -/
-def bitLen (n : Nat) : Nat := if n = 0 then 0 else Nat.log2 n + 1
-
-/-- the general path of `beltFMTCalcB` (after the special cases): all `zz*` calls work on
-`m = W_OF_B(128)` words, i.e. modulo 2^128; returns `den[0]` of a 64-bit-word build -/
-def calcBGeneral (mod count : Nat) : Nat :=
-  let k := bitLen mod
-  let k := if 2 ^ k - mod > mod - 2 ^ (k - 1) then k - 1 else k
-  let t0 := 2 ^ (3 * k) % M128
-  let t1 := 2 ^ (2 * k) % M128 * mod % M128
-  let t2 := 2 ^ k % M128 * mod % M128 * mod % M128
-  let t3 := mod * mod % M128 * mod % M128
-  let den := (t0 + t3) % M128
-  let t4 := (t1 + t2) % M128 * fmtK0 % M128
-  let den := (den + t4) % M128
-  let num := den * fmtK1 % M128 * k % M128
-  let t3 := t3 * fmtK2 % M128
-  let num := (num + t3) % M128
-  let t2 := t2 * fmtK3 % M128
-  let num := (num + t2) % M128
-  let t1 := t1 * fmtK4 % M128
-  let num := (num + M128 - t1) % M128
-  let t0 := t0 * fmtK5 % M128
-  let num := (num + M128 - t0) % M128
-  let num := num * count % M128
-  let den := den * fmtK6 % M128 * fmtK7 % M128
-  let num := (num + den) % M128
-  let num := (num + M128 - 1) % M128
-  (num / den) % 2 ^ 64
-
-/-- `beltFMTCalcB(mod, count)` -/
-def calcB (mod count : Nat) : Nat :=
-  match fmtSpecial.find? (fun s => s.1 == mod && s.2.1 == count) with
-  | some s => s.2.2
-  | none =>
-    if mod == 65536 then (fmt65536.1 * count + fmt65536.2.1) / fmt65536.2.2
-    else calcBGeneral mod count
 
 /-- u16 string <-> octets -/
 def u16To : List Nat → Bytes
